@@ -36,7 +36,7 @@ RULE = ("entries: 3 real cache entries (different sources / environments); every
         "subset through FileSystemBytecodeCache files and a truncating memcached client.  crash points: before / after "
         "temp-file creation, after each write, before / after os.replace, as kill and as OSError, with and without an "
         "older entry at the real name.  histories: all sequences up to length L over {load by env0, load by env1, modify "
-        "source (2 versions), clear} for 7 pairs of option sets (equal, autoescape, trim_blocks, sandbox).  distinct = "
+        "source (2 versions), clear} for 11 pairs of option sets (equal, autoescape, trim_blocks, sandbox, async, lstrip_blocks, keep_trailing_newline).  distinct = "
         "(kind, parameters); non-trivial = truncation inside the pickled checksum or the code, a crash after at least "
         "one write, or a history in which the second environment loads after the first.")
 
@@ -466,6 +466,12 @@ def make_env(jinja2, oid, loader, bcc):
         return jinja2.Environment(trim_blocks=True, **kw)
     if oid == 3:
         return SandboxedEnvironment(**kw)
+    if oid == 4:
+        return jinja2.Environment(enable_async=True, **kw)
+    if oid == 5:
+        return jinja2.Environment(lstrip_blocks=True, **kw)
+    if oid == 6:
+        return jinja2.Environment(keep_trailing_newline=True, **kw)
     return jinja2.Environment(**kw)
 
 
@@ -478,7 +484,7 @@ CTX = {"x": "<b>", "f": unsafe}
 
 
 def text_of(s):
-    return f"v{s} {{{{ x }}}} {{% if true %}}\n{{% endif %}}|{{{{ f() }}}}"
+    return f"v{s} {{{{ x }}}} {{% if true %}}\n{{% endif %}}|{{{{ f() }}}}\n   {{% if true %}}L{{% endif %}}\n"
 
 
 def render(t):
@@ -493,7 +499,9 @@ def run_shared(ctx, jinja2, only=None):
     d = os.path.join(ctx.bdir, "shared")
     L = ctx.size(3, 4)
     ops_alpha = ["l:0:1", "l:1:1", "m:1:8", "m:1:7", "c"]
-    pairs = [(0, 0), (0, 1), (1, 0), (0, 2), (0, 3), (3, 0), (1, 1)]
+    # one pair per class of compile-relevant option (Model/BcOpt.v): autoescape, trim_blocks, sandboxed, async, lstrip_blocks,
+    # keep_trailing_newline — in both directions where the direction matters
+    pairs = [(0, 0), (0, 1), (1, 0), (0, 2), (0, 3), (3, 0), (1, 1), (0, 4), (4, 0), (0, 5), (0, 6)]
     hist = [list(h) for n in range(1, L + 1) for h in itertools.product(ops_alpha, repeat=n)]
     extra = [list(h) for h in itertools.product(ops_alpha, repeat=L + 1)] if ctx.tier == "thorough" else \
         [[ctx.rng.choice(ops_alpha) for _ in range(ctx.rng.randint(4, 7))] for _ in range(150)]
@@ -764,6 +772,7 @@ def run(ctx):
         "a crash is modelled as process death between Python-level calls (os._exit in a child); data is flushed after each write call",
     ]
     ctx.proof("C27")
+    ctx.proof("C27opt")
     table = regen_table(ctx)
     # translator tie (T5): the current source of Bucket.load_bytecode and of dump_bytecode's control skeleton, as
     # terms of Lib/PyBc, proved equal to the model for all inputs / all crash and fault points
